@@ -819,6 +819,7 @@ Proof.
       cbn [statement] in Hl. cbn [rs_stmt] in Hrs.
       destruct s.
       * (* SAssignment *)
+        destruct (assign_op_ok op) eqn:Hopok; cbn [negb] in Hrs; [|discriminate].
         fresh_in Hl res. sub_expr Hl pcp Hpcp. destruct pcp as [[pre cur] post].
         sub_expr Hl rv Hrv. destruct rv as [cv vv]. sub_expr Hl opi Hopi. done_in Hl.
         rs_step Hrs nt Hnt. rs_step Hrs nv Hnv. inversion Hrs; subst us; clear Hrs.
